@@ -88,16 +88,24 @@ def renderable(o):
     return hasattr(o, "get_sql") and not isinstance(o, type)
 
 
-def F(o, params=True, meta=True, dialects=None):
-    """Observable fingerprint: renders under every dialect context, inline and parameterised, + metadata."""
+def F(o, params=True, meta=True, dialects=None, reverse=False):
+    """Observable fingerprint: renders under every dialect context, inline and parameterised, + metadata.
+
+    reverse=True visits the contexts (and inline/parameterised) in the opposite order: a fingerprint must not depend on
+    the order in which an object was rendered, so comparing the two orders exposes render-order state."""
     out = {}
     if not renderable(o):
         return {"repr": norm_value(o)}
-    for name, ctx in contexts().items():
+    items = list(contexts().items())
+    if reverse:
+        items.reverse()
+    for name, ctx in items:
         if dialects is not None and name not in dialects:
             continue
+        if reverse and params:
+            out[name + ":p"] = render(o, ctx, True)
         out[name] = render(o, ctx)
-        if params:
+        if params and not reverse:
             out[name + ":p"] = render(o, ctx, True)
     try:
         out["str"] = str(o)
